@@ -10,11 +10,14 @@
 (*     blocks behind it in the queue; with two of them the second pass strands the last one (its trigger was consumed by    *)
 (*     the pass before): the thread that queued it -- the connection thread with Separate.req -- waits forever and the       *)
 (*     close sequence never ends.  Regression witness; FALSE: after fix: every queued block is resolved.                    *)
+(*   SendMayRaise = TRUE : as originally coded send_data raises (ValueError from select on a closed socket) instead of returning     *)
+(*     False once the connection thread has closed the socket: the exception leaves the queue processing, the block that was taken   *)
+(*     is never resolved and its sender -- in the field: the dispatcher thread answering a primary -- waits forever.  Witness.        *)
 (*   WaitTimesOut = TRUE : BlockSendInfo.wait gives up after a while and treats "no result yet" as success (seeded change    *)
 (*     C10-6); witness for ReportedSuccessMeansSent.                                                                      *)
 EXTENDS Naturals, Sequences, FiniteSets, TLC
 
-CONSTANTS NS, ReturnOnFailure, WaitTimesOut
+CONSTANTS NS, ReturnOnFailure, WaitTimesOut, SendMayRaise
 
 App == 1..NS
 Conn == NS + 1                 \* the connection thread (Separate.req)
@@ -75,7 +78,11 @@ RSend == /\ rpc = "send"
                    /\ rpc' = IF ReturnOnFailure THEN "wait" ELSE "check"
          /\ UNCHANGED <<pc, ret, sq, rtrig, ritem, link, noticed, closed>>
 
-Next == \/ \E s \in Senders : Start(s) \/ Put(s) \/ Trig(s) \/ Got(s) \/ GiveUp(s)
+RSendRaises == /\ SendMayRaise /\ rpc = "send" /\ link = "down" /\ noticed
+               /\ rpc' = "wait" /\ UNCHANGED <<pc, res, ret, sq, rtrig, ritem, link, noticed, sent, closed>>
+
+Next == \/ RSendRaises
+        \/ \E s \in Senders : Start(s) \/ Put(s) \/ Trig(s) \/ Got(s) \/ GiveUp(s)
         \/ PeerCloses \/ Notice \/ Finish \/ Kick \/ RWake \/ RClear \/ RCheck \/ RSend
 Fair == /\ \A s \in Senders : WF_vars(Put(s)) /\ WF_vars(Trig(s)) /\ WF_vars(Got(s))
         /\ WF_vars(Start(Conn)) /\ WF_vars(Notice) /\ WF_vars(Finish)
